@@ -241,18 +241,18 @@ reg(Spec("C13", "Props/C13.v", harness="workers", overlay={},
       "guarded flags for ReadString/OpenFile are idioms recognised by go2v; that close(2) unblocks read(2) and wall-clock time are observed by the harness (bound 2 s), not proved",
       "the leaked opener goroutine and a Maintain() call in flight while Read closes the reassembler are not modelled",
       "'its context' of the sshd-side worker is the context handed to Ingest / Process / ProcessSshdLogEntry, not the one NewSshdProcessor was configured with (scenarios child-ctx/*: only the former is cancelled); on the built binary it is the errgroup's context, cancelled by a sibling's failure while the process context lives on (sibling-failure/*: racy, repeated 5/12/20 times per variant)"],
-    modelled=WORKERS_MODELLED))
+    modelled=WORKERS_MODELLED, extra_targets=["Model/ErrgroupCheck.vo"]))
 reg(Spec("C08", "Props/C08.v", harness="workers", overlay={},
     args_quick=["-prop", "C08"],
     args_thorough=["-prop", "C08", "-n", "3"],
     args_search=["-prop", "C08", "-n", "2"],
     harness_timeout=300,
     assumptions=[
-      "daemon = errgroup over group_workers; a daemon round = one fair round of every worker under the same group context; a returned error or a signal cancels it for good",
+      "daemon = errgroup over group_workers; a daemon round = one fair round of every worker under the same group context; that a returned error or a signal cancels it for good by the end of the round, and that Wait returns non-nil iff a worker failed, is no longer a stated rule of Model/Workers.v alone: every round of the composite (workers + errgroup machine, Model/ErrgroupDaemon.v: a round of every worker, then three fair rounds of the group's own threads) is PROVED to be such a daemon round (C08_errgroup_round_is_dround, C08_errgroup_daemon_simulation / _exit / _fail_stop)",
       "signal delivery, log.Fatalln's status 1, the kernel FIFO and 'buffer full' under load (writer floods 1.2 s, >40k lines vs 10000 slots) are runtime facts observed on the built binary (bound 5 s)",
       "optional HTTP/metrics workers are listed, not modelled; that their flags default to false is generated and proved (C08_optional_workers_off_by_default)",
       "exit status: Workers.exited's 1/0 is tied to func main as interpreted from main.go (C08_exit_status_from_source); log.Fatal* = 1 and os.Exit(n) = n are the interpreter's reading of the standard library"],
-    modelled=WORKERS_MODELLED))
+    modelled=WORKERS_MODELLED, extra_targets=["Model/ErrgroupCheck.vo"]))
 
 AUDITPROC_OVERLAY = {"processors/auditd/verif_c15_export.go": "harness/overlay/auditd_c15_verif.go"}
 # C16: real-time runs of the real Auditd.Read (second half inside / well outside the window, with and without
@@ -313,3 +313,28 @@ reg(Spec("C15", "Props/C15.v", harness="auditproc", overlay=AUDITPROC_OVERLAY,
     ],
     modelled=["processors/auditd/auditd.go (Read, parseAuditLogs, maintainReassemblerLoop: translated, tools/go2v/auditgen.go)", "processors/auditd/reassembler_callback.go (translated)", "go-libaudit reassembler.go (third-party, pinned: translated, tools/go2v/reassemblergen.go)"],
     extra_targets=["Model/AuditProcCheck.vo"]))
+
+
+# errgroup + derived context as a machine (Model/Errgroup.v): the real golang.org/x/sync/errgroup of /repo's go.mod on scripted
+# workers, forced-sequential scripts compared step by step with the model (Coq case files) and judged by a function-call-level
+# oracle; racy scripts under the race detector.  Both tiers, both properties.
+def errgroup_extra(pid):
+    return [("errgroup", {}, ["-prop", pid, "-n", "3000", "-exh", "3", "-coq", "2000", "-racy", "1500", "-reps", "4"], True,
+             ["-prop", pid, "-n", "250", "-exh", "2", "-racy", "120", "-reps", "3"])]
+
+
+ERRGROUP_ASSUME = [
+    "errgroup is no longer a stated rule: Model/Errgroup.v is golang.org/x/sync/errgroup v0.4.0 (Go, Wait, done, WithContext; SetLimit/TryGo/the semaphore are not used "
+    "by /repo and are left out) as a small-step machine - one atomic step per shared-memory access / sync operation (wg.Add, go, f's return, errOnce.Do entry, g.err = err, "
+    "g.cancel(g.err), Once release, wg.Done, wg.Wait's test, Wait's cancel, Wait's read of g.err), the parent context cancellable at any step - and the rule of "
+    "Model/Workers.v's dround / exited is PROVED from it for every script and schedule (C08_errgroup_*, C13_errgroup_*, refinement C08_errgroup_daemon_*)",
+    "trusted about the machine: the reading of sync.WaitGroup (a counter; Wait passes when it is 0; Done on 0 panics), sync.Once (new / running / done; other callers block "
+    "while it runs) and context.WithCancelCause (first cancellation wins, cause recorded, a cancelled parent cancels the child in the same step) as atomic steps, i.e. "
+    "sequential consistency of those library operations (Go memory model: they are synchronising); the worker function is the environment (its return is a schedule item, "
+    "a waiting worker returns only once the context is done); tied on every run by stage errgroup: forced-sequential scripts (quiescence awaited through ctx.Done, Wait's "
+    "result and runtime.NumGoroutine, never a sleep as oracle) against the model and a function-call-level oracle, racy scripts under -race",
+]
+for _p in ("C08", "C13"):
+    SPECS[_p].thorough_extra = SPECS[_p].thorough_extra + errgroup_extra(_p)
+    SPECS[_p].assumptions = SPECS[_p].assumptions + ERRGROUP_ASSUME
+    SPECS[_p].modelled = SPECS[_p].modelled + ["golang.org/x/sync/errgroup (third-party, pinned by /repo/go.mod): Model/Errgroup.v, written by hand from errgroup.go, tied by stage errgroup"]
